@@ -59,6 +59,7 @@ package main
 //@     assert[C19:mark-request-completed] found && arg2 == request && request.Completed
 //@   send errChan
 //@     assert[C19:only-errors-are-queued] arg1 != nil
+//@     assert[C19:error-queue-never-blocks-a-writer] chlen(errChan) < chcap(errChan)
 
 // ---- the three agent endpoints: nothing happens before the caller is validated, and everything happens under the validated id (C17, C19) ----
 //@ func pendingHandler props(C17,C07)
